@@ -19,3 +19,7 @@ pub proof fn lemma_rc_cloned<T>(a: Rc<T>, b: Rc<T>)
     requires cloned::<Rc<T>>(a, b)
     ensures a == b
 {}
+
+// pointer equality implies equality of the (immutable) values; nothing is known when it returns false
+pub assume_specification<T: std::marker::MetaSized + ?Sized, A: std::alloc::Allocator> [std::rc::Rc::<T, A>::ptr_eq] (a: &std::rc::Rc<T, A>, b: &std::rc::Rc<T, A>) -> (r: bool)
+    ensures r ==> a == b;
